@@ -164,6 +164,12 @@ def programs():
     for ui, use in enumerate(uses):
         out.append(("self-referential generic static %d" % ui, "".join(selfs) + "function main() -> void { %s echo(\"done\"); }\n" % use))
         out.append(("self-referential generic static %d (main first)" % ui, "function main() -> void { %s echo(\"done\"); }\n" % use + "".join(reversed(selfs))))
+    # element-wise operators on bit arrays of equal and of different lengths (both ways round), literal and sized
+    for op in ("&", "|", "^"):
+        for la, lb in ((1, 1), (3, 3), (1, 3), (3, 1), (2, 9), (9, 2), (64, 1), (1, 64), (0, 2), (2, 0)):
+            mk = lambda nm, n: ("bit[] %s = {%s};" % (nm, ", ".join("1b" if i % 2 else "0b" for i in range(n)))) if 0 < n <= 9 else "bit[%d] %s;" % (n, nm)
+            out.append(("bit arrays %s lengths %d,%d" % (op, la, lb), "function main() -> void { %s %s bit[] out = a %s b; echo(out); }\n" % (mk("a", la), mk("b", lb), op)))
+            out.append(("bit arrays %s lengths %d,%d in place" % (op, la, lb), "function main() -> void { %s %s a = a %s b; echo(a); echo(~a); }\n" % (mk("a", la), mk("b", lb), op)))
     # deep recursion within the documented bound
     out.append(("recursion 200", "function down(int n) -> int { if (n <= 0) { return 0; } return 1 + down(n - 1); }\nfunction main() -> void { echo(down(200)); }\n"))
     # cx on one qubit
